@@ -38,7 +38,9 @@ class AList:
         return self.n > 0
 
     def root(self):
-        return self.base.root() if self.base is not None else self
+        if self.base is not None and not hasattr(self, "make_element"):
+            return self.base.root()
+        return self
 
     def holds(self, e):
         """conjunction of the filter predicates down to the root, for element term e"""
